@@ -729,6 +729,9 @@ class AsyncFIXConnection:
             FMsg.SEQUENCERESET,
         }
 
+        # the reply belongs to the connection the request came from
+        writer = self._socket_writer
+
         if begin_seq_no >= 1 and begin_seq_no <= end_seq_no:
             journal_replay_msgs = self._journaler.recover_messages(
                 self._session, MessageDirection.OUTBOUND, begin_seq_no, end_seq_no
@@ -751,6 +754,11 @@ class AsyncFIXConnection:
                     #  the message is not replayed (covered by gap fill)
                     self.log.exception(f"should_replay() failed: {replay_msg}")
                     is_replayed = False
+                if self._socket_writer is not writer:
+                    # connection was closed (and maybe a new one established, not
+                    #  logged on yet) while should_replay() was awaited
+                    self.log.warning("Resend aborted: connection is gone")
+                    return
                 if not is_replayed:
                     continue
 
@@ -769,6 +777,8 @@ class AsyncFIXConnection:
             if gap_fill_begin <= end_seq_no:
                 await self._send_gap_fill(gap_fill_begin, end_seq_no + 1)
 
+        if self._socket_writer is not writer:
+            return
         if self._connection_state != ConnectionState.RESENDREQ_AWAITING:
             await self._state_set(ConnectionState.ACTIVE)
 
